@@ -296,8 +296,60 @@ func runC10(ctx *Ctx) error {
 		p := kit.Add(&RunPkg{Name: fmt.Sprintf("c10_%d", i), Doc: c10Doc(perms), Cfg: cfg})
 		cases = append(cases, cs{ms, perms, old, p})
 	}
+	// a member that is itself a composition and a union side by side (allOf next to oneOf): the union goes into the
+	// merged type with the rest
+	unionDoc := wDoc(J{}, J{"schemas": J{
+		"Base":   J{"type": "object", "properties": J{"id": J{"type": "integer"}}},
+		"Cat":    J{"type": "object", "properties": J{"meow": J{"type": "string"}}},
+		"Dog":    J{"type": "object", "properties": J{"bark": J{"type": "string"}}},
+		"Animal": J{"allOf": []interface{}{J{"$ref": "#/components/schemas/Base"}}, "oneOf": []interface{}{J{"$ref": "#/components/schemas/Cat"}, J{"$ref": "#/components/schemas/Dog"}}},
+		"Pet":    J{"allOf": []interface{}{J{"$ref": "#/components/schemas/Animal"}, J{"type": "object", "properties": J{"name": J{"type": "string"}}}}},
+		"Pet2":   J{"allOf": []interface{}{J{"type": "object", "properties": J{"name": J{"type": "string"}}}, J{"$ref": "#/components/schemas/Animal"}}}}})
+	var ucfg codegen.Configuration
+	ucfg.Generate.Models = true
+	ucfg.OutputOptions.SkipPrune = true
+	unionPkg := kit.Add(&RunPkg{Name: "c10_union_member", Doc: unionDoc, Cfg: ucfg})
 	// conflicting compositions are generated one permutation at a time (one failing schema fails the whole document)
 	kit.Prepare()
+	// one loaded document, generated in the legacy merge mode first and in the default mode afterwards: the second output
+	// is the default mode's (what a fresh load gives), nothing of the first call is kept
+	for k := 0; k < 3 && k < len(cases); k++ {
+		doc := cases[k].p.Doc
+		var oldCfg, newCfg codegen.Configuration
+		oldCfg.PackageName, newCfg.PackageName = "api", "api"
+		oldCfg.Generate.Models, newCfg.Generate.Models = true, true
+		oldCfg.OutputOptions.SkipPrune, newCfg.OutputOptions.SkipPrune = true, true
+		oldCfg.Compatibility.OldMergeSchemas = true
+		shared, err1 := loadDoc(doc)
+		fresh, err2 := loadDoc(doc)
+		if err1 != nil || err2 != nil {
+			continue
+		}
+		_, _ = generate(shared, oldCfg)
+		second, e1 := generate(shared, newCfg)
+		want, e2 := generate(fresh, newCfg)
+		ctx.Res.Eval(J{"same-document-two-modes": k}, true)
+		if (e1 == nil) != (e2 == nil) || second != want {
+			ctx.Res.Violate("merge-mode-carried-over", fmt.Sprintf("a document generated with old-merge-schemas and then, from the same loaded document, without it: the second output is not the default mode's (%s)", firstDiff(c17Outcome{Out: second}, c17Outcome{Out: want})), J{"doc": doc})
+		}
+	}
+	ctx.Res.Eval(J{"composition": "member with allOf and oneOf"}, true)
+	if unionPkg.GenErr != nil || unionPkg.BuildErr != "" {
+		ctx.Res.Violate("union-member:not-built", fmt.Sprintf("a composition over a member that has allOf and oneOf side by side is not generated or does not build: %v %s", unionPkg.GenErr, firstLines(unionPkg.BuildErr, 3)), J{"doc": unionDoc})
+	} else {
+		for _, typ := range []string{"Pet", "Pet2"} {
+			for _, inst := range []string{`{"bark":"woof","id":1,"name":"rex"}`, `{"id":2,"meow":"mew","name":"tom"}`} {
+				resp, err := unionPkg.Call(J{"do": "json", "type": typ, "data": inst})
+				if err != nil {
+					return err
+				}
+				out, _ := resp["out"].(string)
+				if !jsonEqual(out, inst) {
+					ctx.Res.Violate("union-member:instance-lost:"+typ, fmt.Sprintf("%s (allOf over a member with allOf and oneOf): %s decoded and encoded again is %s", typ, inst, Canon(resp)), J{"doc": unionDoc, "type": typ, "instance": inst})
+				}
+			}
+		}
+	}
 	for _, c := range cases {
 		exp := c10Expected(c.ms)
 		mode := "new"
